@@ -652,7 +652,18 @@ def gen_program2(rng):
             if last and last["flag"] == g["flag"]: g["flag"] = "IgnoreMarks" if g["flag"] != "IgnoreMarks" else None
             items.append(("inline", g)); last = g
         if items: feats.append((rng.choice(["kern", "dist"]), items))
-    return {"base": base, "extra": extra, "named": named + ctx, "features": feats}
+    markpos = None
+    if rng.chance(50):
+        # mark-to-base attachment: one or two mark classes with their own anchors, base anchors for some glyphs
+        classes = {}
+        for m in MARKS:
+            if rng.chance(80): classes.setdefault(rng.choice(["TOP", "BOT"]), []).append((m, (rng.randint(-40, 40), rng.randint(-60, 600))))
+        bases_ = {}
+        for g in rng.sample(allg(), rng.randint(1, min(4, len(allg())))):
+            bases_[g] = {c: (rng.randint(50, 400), rng.randint(-100, 700)) for c in classes if rng.chance(80)}
+            if not bases_[g]: del bases_[g]
+        if classes and bases_: markpos = {"classes": classes, "bases": bases_, "flag": None}
+    return {"base": base, "extra": extra, "named": named + ctx, "features": feats, "markpos": markpos}
 
 def to_fea2(P):
     cls = lambda s: s[0] if len(s) == 1 else "[%s]" % " ".join(s)
@@ -678,12 +689,21 @@ def to_fea2(P):
     fea = ["languagesystem DFLT dflt;", "table GDEF {\n  GlyphClassDef [%s], , [%s], ;\n} GDEF;" % (" ".join(allg), " ".join(MARKS))]
     for g in P["named"]:
         fea.append("lookup %s {\n  %s\n  %s\n} %s;" % (g["name"], flag_stmt(g["flag"]), "\n  ".join(rules_text(g)), g["name"]))
+    mp = P.get("markpos")
+    if mp:
+        for c, members in mp["classes"].items():
+            for m, (ax, ay) in members: fea.insert(2, "markClass %s <anchor %d %d> @%s;" % (m, ax, ay, c))
     for tag, items in P["features"]:
         body = []
         for kind, x in items:
             if kind == "ref": body.append("lookup %s;" % x)
             else: body += [flag_stmt(x["flag"])] + rules_text(x)
         fea.append("feature %s {\n  %s\n} %s;" % (tag, "\n  ".join(body), tag))
+    if mp:
+        lines = []
+        for g, anchors in mp["bases"].items():
+            lines.append("pos base %s %s;" % (g, " ".join("<anchor %d %d> mark @%s" % (ax, ay, c) for c, (ax, ay) in anchors.items())))
+        fea.append("feature mark {\n  %s\n} mark;" % "\n  ".join(lines))
     return "\n".join(fea) + "\n"
 
 def interpret2(P, glyphs, adv):
@@ -774,7 +794,21 @@ def interpret2(P, glyphs, adv):
         for g in sorted({id(g): g for g in active}.values(), key=lambda g: idx[id(g)]):
             if (g["kind"] == "pair") != (stage == "pos"): continue
             run(g)
-    return [(g, adv[g] + a) for g, a in buf]
+    out = [[g, adv[g] + a, 0, 0] for g, a in buf]
+    mp = P.get("markpos")
+    if mp:
+        cls_of = {m: (c, anc) for c, members in mp["classes"].items() for m, anc in members}
+        for i, (g, _a, _x, _y) in enumerate(out):
+            if g not in cls_of: continue
+            c, (mx, my) = cls_of[g]
+            j = i - 1
+            while j >= 0 and out[j][0] in MARKS: j -= 1            # the nearest preceding glyph that is not a mark
+            if j < 0: continue
+            banc = mp["bases"].get(out[j][0], {}).get(c)
+            if banc is None: continue
+            # the mark is drawn relative to its own origin, which lies after the advances of everything since the base
+            out[i][2] = banc[0] - mx - sum(out[k][1] for k in range(j, i)); out[i][3] = banc[1] - my
+    return [tuple(x) for x in out]
 
 def build_program_font2(P):
     from fontTools.fontBuilder import FontBuilder
@@ -811,7 +845,7 @@ def _interp_sweep2(tier, rng):
         bad = None
         for t in texts:
             s = "".join(inv.get(g, g) for g in t)
-            got = [(g, xa) for g, xa, ya, xo, yo in h.shape(s)]
+            got = [(g, xa, xo, yo) for g, xa, ya, xo, yo in h.shape(s)]
             want = interpret2(P, list(t), adv)
             if got != want:
                 bad = "glyphs %r: compiled tables give %r, the rules say %r\n%s" % (t, got, want, fea); break
